@@ -11,19 +11,22 @@ from . import model, hook, FUNCS, TRUSTED, VALUES
 SeedSeq = z3.DeclareSort("SeedSeq")
 Gen = z3.DeclareSort("Gen")
 SS_of_seed = z3.Function("SeedSequence", Int, SeedSeq)
-SS_spawn = z3.Function("spawn", SeedSeq, Int, Int, SeedSeq)  # (parent, n_children, index)
+SS_spawn = z3.Function("spawn", SeedSeq, Int, Int, Int, SeedSeq)  # (parent, already spawned, n_children, index)
 G_of_ss = z3.Function("default_rng_ss", SeedSeq, Gen)
 G_of_seed = z3.Function("default_rng_int", Int, Gen)
 
 
 class SeedSeqV:
+    """SeedSequence object: spawn() is stateful (n_children_spawned), so the object carries that counter."""
+
     def __init__(self, term):
         self.term = term
+        self.spawned = 0
 
 
 class SpawnedV:
-    def __init__(self, parent, n):
-        self.parent, self.n = parent, n
+    def __init__(self, parent, before, n):
+        self.parent, self.before, self.n = parent, before, n
 
 
 class GenTok:
@@ -54,7 +57,9 @@ def _default_rng(i, args, kw, node, fr):
 def _ga(i, v, name, node, fr):
     if isinstance(v, SeedSeqV) and name == "spawn":
         def spawn(interp, s, a, k, n, f):
-            return SpawnedV(s.term, a[0])
+            r = SpawnedV(s.term, s.spawned, a[0])
+            s.spawned = s.spawned + a[0]
+            return r
         return BoundMethod(v, spawn)
     return NotImplemented
 
@@ -66,9 +71,9 @@ def _gi(i, v, idx, node):
         k = to_z3(idx, Int)
         i.safe("index", z3.And(k >= -n, k < n), node)
         k = z3.If(k < 0, k + n, k)
-        return SeedSeqV(SS_spawn(v.parent, n, k))
+        return SeedSeqV(SS_spawn(v.parent, to_z3(v.before, Int), n, k))
     return NotImplemented
 
 
-TRUSTED["numpy.random.SeedSequence.spawn"] = ("spawn(n)[i] is a function of (parent, n, i); that distinct i give "
+TRUSTED["numpy.random.SeedSequence.spawn"] = ("spawn(n)[i] is a function of (parent entropy, children spawned before, n, i) and advances the parent's counter; that distinct i give "
                                               "independent non-overlapping streams is numpy's guarantee (assumed, not proved)")
